@@ -21,8 +21,14 @@ VERIF = os.path.dirname(os.path.dirname(os.path.abspath(__file__)))
 PY = "/venv/bin/python"
 
 
-def baseline_fail_count():
-    return 22
+def stable_pass():
+    """The baseline's stable-pass tests, as pytest node ids."""
+    names = json.load(open("/root/.vp/BASELINE.json"))["stable_pass"]
+    out = set()
+    for n in names:
+        mod, _, rest = n.partition("::")
+        out.add(mod.replace(".", "/") + ".py::" + rest)
+    return out
 
 
 def run_suite(scratch):
@@ -68,10 +74,11 @@ def main():
         out = {"diff": args.diff}
         if args.suite:
             passed, failed, tail = run_suite(scratch)
+            regress = sorted(set(failed) & stable_pass())
             out["suite"] = {"passed": passed, "failed": len(failed), "tail": tail,
-                            "same_as_baseline": passed == 752 and len(failed) == baseline_fail_count()}
-            if not out["suite"]["same_as_baseline"]:
-                out["suite"]["failed_names"] = failed[:40]
+                            "same_as_baseline": passed >= 752 and not regress}
+            if regress:
+                out["suite"]["regressions"] = regress[:40]
         for prop in [x for x in args.props.split(",") if x]:
             env = dict(os.environ)
             env["VERIF_REPO"] = scratch
